@@ -20,12 +20,13 @@ def translate(out, mc, pending):
                             "translate_range(range) is Some(Range{start: get_line_col(range.start()), end: get_line_col(range.end())}) of the diagnostic's own document, "
                             "and None only when the document or one of the two conversions is missing (then add_diagnostic falls back to 0:0)",
                             {"function": "DiagnosticContext::translate_range", "free": "document present?, both get_line_col outcomes"}, [f.name for f in fns]))
-    if len(fns) != 1:
+    cand = [f for f in fns if f.name.endswith("::translate_range")]
+    if len(cand) != 1:
         ob.status = "inconclusive"
-        ob.detail = "%d candidates" % len(fns)
+        ob.detail = "%d candidates" % len(cand)
         return
     ex = symex.Executor(fns)
-    paths = ex.run(fns[0])
+    paths = ex.run(cand[0])
     fails = []
     n_some = 0
     for p in paths:
